@@ -32,8 +32,8 @@ class Recur:
         self.e = Engine(crate, opaque=opaque, models={PUSH: emitted, self.path: emitted})
         self.r = self.e.run(self.path)
         evs = list(self.e.events.values())
-        self.pushes = [ev for ev in evs if ev.callee == PUSH and len(ev.site) == 2]
-        self.selfcalls = [ev for ev in evs if ev.callee == self.path and len(ev.site) == 2]
+        self.pushes = [ev for ev in evs if ev.callee == PUSH]
+        self.selfcalls = [ev for ev in evs if ev.callee == self.path]
         # shs: result of calling the closure parameter; thresholds: fields of shs_minmax[recur_depth]
         shs_calls = [ev for ev in evs if ev.callee and ev.callee.startswith("dyn:") and "Fn" in ev.callee or (ev.callee and "ops::Fn" in ev.callee)]
         self.shs = shs_calls[0].ret if len(shs_calls) == 1 else None
